@@ -203,6 +203,31 @@ pub enum StrPart {
     Int(Expr),
 }
 
+/// (source text, first line of the runtime error)
+pub const NATIVE_OP_FAILS: &[(&str, &str)] = &[
+    ("[1, 'a'].min()", "unable to perform operation '<' with 'Number' and 'String'"),
+    ("[1, 'a'].max()", "unable to perform operation '<' with 'Number' and 'String'"),
+    ("[1, 'a'].sort()", "unable to perform operation '<' with 'String' and 'Number'"),
+    ("(1, 'a').sum()", "unable to perform operation '+' with 'Number' and 'String'"),
+    ("(2, 'a').product()", "unable to perform operation '*' with 'Number' and 'String'"),
+];
+
+/// statements that always fail, for `Stmt::Storm`
+pub const STORM_SOURCES: &[&str] = &[
+    "throw 'S'",
+    "xx = [1, 'a'].min()",
+    "xx = [1, 'a'].sort()",
+    "xx = (1, 'a').sum()",
+    "xx = (2, 'a').product()",
+    "xx = 'p{(1, 'a').sum()}q'",
+    "xx = [7, (1, 'a').sum()]",
+    "xx = C_APPLY()",
+    "xx = {k: 1}.update 'k', |x| x + 'a'",
+    "xx = (1..3).each(|x| x + 'a').to_list()",
+    "xx = 1 + 'a'",
+    "xx = IDX[5]",
+];
+
 #[derive(Clone, Debug)]
 pub enum ThrowKind {
     Str(u32),
@@ -217,6 +242,12 @@ pub enum CatchKind {
     String,
     Number,
     Any,
+    /// `catch {code}`: a map pattern; accepts the typed throws (maps with a `code` entry) only
+    MapCode,
+    /// `catch {code}: T<k>`
+    MapCodeTyped(u8),
+    /// `catch {nokey}`: a map pattern nothing thrown by these programs matches
+    MapMissing,
 }
 
 #[derive(Clone, Debug)]
@@ -278,6 +309,12 @@ pub enum Stmt {
     /// `m0[0] = (l0, 1)`: an unhashable key - a natural error raised in the middle of a
     /// container operation (the map must be unchanged afterwards)
     MapIndexBadKey,
+    /// `xx = [1, 'a'].min()` and the like: a core library function fails inside an operator it
+    /// runs through the VM (`run_binary_op`); see `NATIVE_OP_FAILS`
+    NativeOpFail(u8),
+    /// `for rr in 0..<n>` / `try` / <a statement that always fails> / `catch e` / `i<v> += 1`:
+    /// many errors caught in ONE frame (whatever a caught error leaves behind accumulates)
+    Storm(u8, u8, u32),
     /// `i<v> = loop` / `try` / pre… / `break <value>` / `catch e` / handler… / `break -7`:
     /// the break VALUE is evaluated inside the try block of a loop used as an expression
     LoopTryBreak(u8, u32, Block, Expr, Block),
@@ -338,6 +375,8 @@ pub struct GenKnobs {
     /// every loop that sits inside a try block
     pub dense_exits: bool,
     pub tick_shapes: Vec<TickShape>,
+    /// largest iteration count of a `Stmt::Storm`
+    pub max_storm: u32,
 }
 
 impl GenKnobs {
@@ -379,6 +418,7 @@ impl GenKnobs {
             allow_chains: r.chance(1, 2),
             dense_exits: r.chance(1, 2),
             tick_shapes,
+            max_storm: *r.pick(&[5, 30, 100, 270]),
         }
     }
 }
@@ -636,7 +676,15 @@ impl<'a> Gen<'a> {
                 }
                 27 if self.r.chance(1, 3) => {
                     if self.r.chance(1, 3) || !nested_ok || c.in_finally {
-                        Stmt::MapIndexBadKey
+                        match self.r.below(4) {
+                            0 => Stmt::MapIndexBadKey,
+                            1 => Stmt::NativeOpFail(self.r.usize_below(NATIVE_OP_FAILS.len()) as u8),
+                            _ => Stmt::Storm(
+                                self.r.below(3) as u8,
+                                self.r.usize_below(STORM_SOURCES.len()) as u8,
+                                (*self.r.pick(&[2u32, 5, 30, 100, 100, 270])).min(self.k.max_storm),
+                            ),
+                        }
                     } else {
                         self.p.n_tries += 1;
                         let id = self.p.n_tries;
@@ -712,6 +760,12 @@ impl<'a> Gen<'a> {
                 CatchKind::String
             } else if self.r.chance(1, 5) {
                 CatchKind::Number
+            } else if self.r.chance(1, 4) {
+                match self.r.below(3) {
+                    0 => CatchKind::MapCode,
+                    1 => CatchKind::MapCodeTyped(self.r.range(1, 2) as u8),
+                    _ => CatchKind::MapMissing,
+                }
             } else {
                 CatchKind::Typed(self.r.range(1, 2) as u8)
             };
@@ -720,8 +774,20 @@ impl<'a> Gen<'a> {
                 block: self.block(c_body, with_result),
             });
         }
+        // the last catch block accepts everything — or is a map pattern (the only kind of
+        // selective catch the compiler allows in last position): what it does not accept must
+        // propagate to the next enclosing handler
+        let last_kind = if self.k.allow_typed && self.r.chance(1, 6) {
+            match self.r.below(4) {
+                0 => CatchKind::MapCode,
+                1 => CatchKind::MapCodeTyped(self.r.range(1, 2) as u8),
+                _ => CatchKind::MapMissing,
+            }
+        } else {
+            CatchKind::Any
+        };
         catches.push(Catch {
-            kind: CatchKind::Any,
+            kind: last_kind,
             block: self.block(c_body, with_result),
         });
         if self.k.dense_exits && c.loop_level > 0 && !c.in_finally && !c_body.no_abrupt && self.r.chance(2, 3) {
@@ -1125,8 +1191,17 @@ impl Printer {
                         CatchKind::String => self.line(indent, "catch e: String"),
                         CatchKind::Number => self.line(indent, "catch e: Number"),
                         CatchKind::Any => self.line(indent, "catch e"),
+                        CatchKind::MapCode => self.line(indent, "catch {code}"),
+                        CatchKind::MapCodeTyped(k) => self.line(indent, &format!("catch {{code}}: T{k}")),
+                        CatchKind::MapMissing => self.line(indent, "catch {nokey}"),
                     }
-                    self.line(indent + 1, &format!("caught({}, e)", t.id));
+                    match c.kind {
+                        CatchKind::MapCode | CatchKind::MapCodeTyped(_) => {
+                            self.line(indent + 1, &format!("caught({}, code)", t.id))
+                        }
+                        CatchKind::MapMissing => self.line(indent + 1, &format!("caught({}, nokey)", t.id)),
+                        _ => self.line(indent + 1, &format!("caught({}, e)", t.id)),
+                    }
                     self.block_with_tail(&c.block, indent + 1, body_tail_used);
                 }
                 if let Some(f) = &t.finally {
@@ -1140,6 +1215,14 @@ impl Printer {
             }
             Stmt::Dump(n) => self.line(indent, &format!("dump({n}, i0, i1, i2, s0, l0, m0, GL)")),
             Stmt::MapIndexBadKey => self.line(indent, "m0[0] = (l0, 1)"),
+            Stmt::NativeOpFail(k) => self.line(indent, &format!("xx = {}", NATIVE_OP_FAILS[*k as usize].0)),
+            Stmt::Storm(v, k, n) => {
+                self.line(indent, &format!("for rr in 0..{n}"));
+                self.line(indent + 1, "try");
+                self.line(indent + 2, STORM_SOURCES[*k as usize]);
+                self.line(indent + 1, "catch e");
+                self.line(indent + 2, &format!("i{v} += 1"));
+            }
             Stmt::LoopTryBreak(v, id, pre, val, handler) => {
                 self.line(indent, &format!("i{v} = loop"));
                 self.line(indent + 1, "try");
